@@ -83,3 +83,7 @@ func Verif_C05_T2_FlatGetTouch()         { verifScenarioFlatTouch(false) }
 func Verif_C05_T2_FlatFindMissingTouch() { verifScenarioFlatTouch(true) }
 func Verif_C05_T2_HierGetTouch()         { verifScenarioHierTouch(false) }
 func Verif_C05_T2_HierFindMissingTouch() { verifScenarioHierTouch(true) }
+
+// T2 over a multi-digest existence check: every refresh a FindMissing performs on
+// behalf of one object touches that object's own entries with that object's bytes.
+func Verif_C05_T2_HierFindMissingTwoObjects() { verifScenarioHierFindMissingTwo() }
